@@ -21,8 +21,8 @@ func init() {
 	assumeSite("C12-DELEG", "runtime.(TempVM).RunShutdownCallbacks#delegates:RunShutdownCallbacks", "process-level shutdown callbacks run once at process end in the base VM's context; not part of serving a request")
 	assumeSite("C12-DELEG", "runtime.(TempVM).ThrowControl#delegates:ThrowControl", "the uncaught-exception handler is process-wide by design (SetExceptionHandler delegates to the base VM); it runs the script's handler closure, not request code")
 	register(&PropDef{
-		ID:       "C12",
-		Patterns: []string{"./runtime"},
+		ID:          "C12",
+		Patterns:    []string{"./runtime"},
 		Explanation: "A request-scoped TempVM must keep its definitions to itself and still resolve everything the base VM has. Decided structurally: (OWN) TempVM.AddClass/AddInterface/AddFunc write only the receiver's own tables; (DELEG) a TempVM method delegates to a base-VM method only if no path from that base method (CHA call graph over the whole program) reaches (*VM).AddClass/AddInterface/AddFunc — otherwise definitions made on behalf of the TempVM land in the base VM; the intentional process-wide registrations are listed; (PARSER) the parser a TempVM parses with is the clone bound to it by PrepareParse; (READ) every TempVM lookup consults the base VM on some path; (ESC) the added-* tables are not stored anywhere else. Histories (what an earlier request did) are not enumerated.",
 		Assumptions: []string{
 			"call graph: VTA refined from CHA over go/ssa (sound for the program as loaded, over-approximate: it can only add delegation edges to the forbidden set, never hide one)",
